@@ -565,9 +565,11 @@ theorem try_from_error (hooks : List Hook) (env : Env) (e : Ev) (b r : Bool) (h 
 
 theorem control_from_error (hooks : List Hook) (env : Env) (e : Ev) (b r : Bool) (h : env.st = .ERROR) (he : e ≠ .RECOVER) :
     (controlApi env hooks e b r).1.st = .ERROR := by
-  rcases controlApi_cases hooks env e b r with ⟨_, heq⟩ | ⟨_, hst, _, _⟩
+  rcases controlApi_cases hooks env e b r with ⟨_, heq⟩ | ⟨_, hst, _, _⟩ | ⟨_, _, hd, _, _⟩
   · rw [heq, try_from_error hooks env e b r h he]; exact h
   · exact hst
+  · -- (the glue spares a DONE environment) the refused request left ERROR, not DONE
+    simp [try_from_error hooks env e b r h he, h] at hd
 
 /-- GO_ERROR through TryTransition: if it is accepted the state is ERROR. -/
 theorem goError_ok_st (hooks : List Hook) (env : Env) (b r : Bool)
